@@ -335,12 +335,24 @@ def _hp_mutation(ck: Check, repo: Repo) -> None:
     for c in reinits:
         n = cfg.node_of(c)
         gs = cfg.guards_at(n)
-        okg = any(pol and isinstance(g, ast.Compare) and isinstance(g.ops[0], ast.In) and dotted(g.left) == name_v and "get_lr_names" in ast.unparse(g.comparators[0])
-                  for g, pol, _ in gs)
-        # ... or, equivalently, only the optimizer configurations whose `lr` is the mutated name are visited (a name that is no learning rate matches none)
-        okg = okg or any(pol and isinstance(g, ast.Compare) and len(g.ops) == 1 and isinstance(g.ops[0], ast.Eq) and _mentions(g, name_v) and _reads_attr(g, "lr")
-                         for g, pol, _ in gs)
-        ck.ob("C06.4", fn, c, okg, "optimizers are re-created when (and only when) the mutated name is one of the agent's learning rates")
+        # every condition on the way to the re-creation is one of: `name in <agent>.get_lr_names()`, or the filter `<optimizer config>.lr == name` of the loop over
+        # the registered optimizers (a name that is no learning rate matches none); at least one of them is there, and NOTHING ELSE can skip the re-creation
+        from ..domains import conjuncts as _conj
+
+        def _accepted(a: ast.AST) -> bool:
+            if isinstance(a, ast.Compare) and len(a.ops) == 1:
+                if isinstance(a.ops[0], ast.In) and dotted(a.left) == name_v and "get_lr_names" in ast.unparse(a.comparators[0]):
+                    return True
+                if isinstance(a.ops[0], ast.Eq) and _mentions(a, name_v) and _reads_attr(a, "lr"):
+                    return True
+            return False
+        # (conditions under which the value was mutated at all — e.g. "a hyper-parameter configuration exists" — are not conditions between mutation and re-creation)
+        before = {(ast.unparse(g), pol) for g, pol, _ in cfg.guards_at(cfg.node_of(sets[0]))} if sets and cfg.node_of(sets[0]) is not None else set()
+        atoms = [(a, apol) for g, pol, _ in gs if (ast.unparse(g), pol) not in before for a, apol in _conj(g, pol)]
+        foreign = [ast.unparse(a) for a, apol in atoms if not (apol and _accepted(a))]
+        okg = any(apol and _accepted(a) for a, apol in atoms) and not foreign
+        ck.ob("C06.4", fn, c, okg, "optimizers are re-created when (and only when) the mutated name is one of the agent's learning rates",
+              detail=f"the re-creation also depends on {foreign}: on a path where that is false the optimizers keep the old learning rate" if foreign else "")
         ck.ob("C06.4", fn, c, cfg.dominates(cfg.node_of(sets[0]), n) if sets else False, "the new value is on the individual before optimizers are re-created from it")
         opt = get_kw(c, "optimizer", 1)
         if opt is None:
